@@ -1,5 +1,5 @@
 """C13 every message serialises: valid JSON, framed protobuf, agreeing values."""
-import random
+import random, tempfile, subprocess
 from pipefam import *
 
 GEN = 'C13'
@@ -15,6 +15,7 @@ RULE = ('stream mixed: histories of NetFlow v5/v9/IPFIX and sFlow datagrams thro
         'fields and datetime, the virtual field icmp_name, custom protobuf fields scalar/array fed by IPFIX/v9 mappings): the JSON and '
         'text BYTES of every message compared with the general formatter model Model/Format.v compiled from the same configuration '
         '(timestamps beyond year 9999 are outside the model and left to the oracles), plus the implementation-side oracles. '
+        'binaries: cmd/goflow2 (-format bin) run on generated histories writes the protodelim stream of the model messages (wall-clock fields aside) and cmd/enricher reads it back into as many messages with the same fields. '
         'non-trivial = at least one message serialised; distinct by input')
 TRUSTED = ['Coq 8.16.1 kernel (coqc)', 'extraction + ocaml/main.ml glue', 'Go harness harness/fmt.go (oracles: json.Valid, '
            'streaming key decoder, protodelim.UnmarshalFrom loop, proto.Unmarshal), bin/engine.py',
@@ -80,6 +81,124 @@ def gen_cfg(rng):
         toks += ['nf', '#%x' % ver, '#0', '#0', '#%x' % fid, dest, '#0']
     toks.append('end')
     return '\n'.join(y) + '\n', toks
+
+
+def _varint(b, i):
+    v = sh_ = 0
+    while True:
+        x = b[i]
+        i += 1
+        v |= (x & 127) << sh_
+        sh_ += 7
+        if x < 128:
+            return v, i
+
+
+def pb_frames(b):
+    """split a protodelim stream; None if it does not split exactly"""
+    out, i = [], 0
+    try:
+        while i < len(b):
+            n, i = _varint(b, i)
+            if i + n > len(b):
+                return None
+            out.append(b[i:i + n])
+            i += n
+    except IndexError:
+        return None
+    return out
+
+
+def pb_fields(m):
+    out, i = [], 0
+    while i < len(m):
+        t, i = _varint(m, i)
+        num, wt = t >> 3, t & 7
+        if wt == 0:
+            v, i = _varint(m, i)
+            out.append((num, 0, v))
+        elif wt == 2:
+            n, i = _varint(m, i)
+            out.append((num, 2, m[i:i + n]))
+            i += n
+        else:
+            raise ValueError('wire type %d' % wt)
+    return out
+
+
+def pb_masked(m):
+    """the fields of a message without the ones that carry the wall clock of the run (time_received_ns; for sFlow also the
+    flow start / end, which are the receive time)"""
+    f = pb_fields(m)
+    sf = any(n == 1 and v == 1 for n, w, v in f)
+    return [(n, w, v) for n, w, v in f if n != 110 and not (sf and n in (111, 112))]
+
+
+def binary_part(chk, rng):
+    """THE SHIPPED BINARIES: cmd/goflow2 (-format bin, file transport, no separator) run on generated histories writes a
+    protodelim stream whose frames are, field for field (wall-clock fields aside), frame(pb_encode m) of the model; the
+    consumer cmd/enricher reads that stream and writes as many messages with the same fields."""
+    import props.c14 as c14
+    exe, enr = '/root/scratch/goflow2-c13', '/root/scratch/enricher-c13'
+    for target, path in (('./cmd/goflow2', exe), ('./cmd/enricher', enr)):
+        p = sh('go build -o %s %s' % (path, target), cwd=REPO, env=GOENV, timeout=900, check=False)
+        if p.returncode != 0:
+            chk.record('binary', dict(concrete=False, what='%s does not build: %s' % (target, p.stdout[-300:])), {})
+            return
+    hists = [a.split(' ', 3)[3] for a, _ in model_gen(GEN, 0, chk.seed + 9, 0, dict(quick=6, thorough=60)[chk.tier])]
+    nframes = 0
+    try:
+        for _ in range(dict(quick=2, thorough=20)[chk.tier]):
+            hist = rng.choice(hists)
+
+            def one():
+                rc, raw, line = c14.binary_run(exe, None, None, hist, 'flow', fmt='bin')
+                m = model_run(GEN, [line])[0].split(' ')
+                exp = [bytes.fromhex(m[i + 1][1:]) for i, x in enumerate(m[:-1]) if x == 'b']
+                got = pb_frames(raw)
+                ok = rc == 0 and got is not None and len(got) == len(exp)
+                if ok:
+                    try:
+                        ok = [pb_masked(g) for g in got] == [pb_masked(pb_frames(e)[0]) for e in exp]
+                    except Exception:
+                        ok = False
+                return ok, rc, raw, got, exp, line
+            ok, rc, raw, got, exp, line = one()
+            if not ok:
+                ok, rc, raw, got, exp, line = one()
+                chk.notes.append('binary run repeated after a first disagreement: %s' % ('agrees' if ok else 'disagrees again'))
+            chk.evals += 1
+            nframes += len(got or [])
+            if got:
+                chk.nontrivial.add(hashlib.sha1(line.encode()).digest()[:8])
+            if not ok:
+                chk.record('scopeA-binary', dict(concrete=True, input=line[:60000], exit_status=rc, frames_written=None if got is None else len(got),
+                           frames_expected=len(exp),
+                           what='the goflow2 binary (-format bin) did not write the protodelim stream of the reference messages for the datagrams sent to it'), {})
+                continue
+            out2 = tempfile.mktemp(prefix='enr', dir='/root/scratch')
+            p = subprocess.run([enr, '-format', 'bin', '-transport', 'file', '-transport.file', out2, '-transport.file.sep=', '-loglevel', 'error'],
+                               input=raw, stdout=subprocess.PIPE, stderr=subprocess.PIPE, timeout=120)
+            try:
+                r2 = open(out2, 'rb').read()
+                os.remove(out2)
+            except OSError:
+                r2 = b''
+            g2 = pb_frames(r2)
+            same = p.returncode == 0 and g2 is not None and len(g2) == len(got)
+            if same:
+                same = [sorted(pb_fields(a), key=lambda t: t[0]) for a in g2] == [sorted(pb_fields(a), key=lambda t: t[0]) for a in got]
+            if not same:
+                chk.record('scopeA-enricher', dict(concrete=True, input=line[:60000], exit_status=p.returncode,
+                           messages_in=len(got), messages_out=None if g2 is None else len(g2),
+                           what='cmd/enricher did not read the stream the collector wrote back into as many messages with the same fields'), {})
+    finally:
+        for path in (exe, enr):
+            try:
+                os.remove(path)
+            except OSError:
+                pass
+    chk.count('protodelim frames written by the goflow2 binary, compared with the model and passed through cmd/enricher', nframes)
 
 
 def verdicts(line):
@@ -198,4 +317,5 @@ def run(chk):
     if ins and len(chk.samples) < 6:
         chk.samples.append(dict(stream='configs', config=bytes.fromhex(ins[0].split(' ')[2][6:]).decode()[:800],
                                 impl=verdicts(impl[0])[:400]))
+    binary_part(chk, random.Random(chk.seed * 31 + 130))
     return chk.finish(me)
